@@ -201,3 +201,90 @@ M("c20-new-shared-file", "C20", "isoquant.py", "    args.alignment_config_path =
 M("c20-silent-rename-helper-local", "C20", GTF, "    tmp_path = \"%s.%d.tmp\" % (config_path, os.getpid())\n    with open(tmp_path, 'w') as f_out:\n        json.dump(cache, f_out)\n    os.replace(tmp_path, config_path)",
   "    scratch = \"%s.%d.tmp\" % (config_path, os.getpid())\n    with open(scratch, 'w') as handle:\n        json.dump(cache, handle)\n    os.replace(scratch, config_path)",
   expect="silent", note="rename helper locals")
+
+# ---------------------------------------------------------------- C16
+CMN = "src/common.py"
+M("c16-ins-advances-ref", "C16", CMN, "        elif cigar_event == CigarEvent.insertion:\n            read_pos += event_len\n        elif cigar_event == CigarEvent.deletion:\n            ref_pos += event_len\n        elif cigar_event == CigarEvent.skipped:",
+  "        elif cigar_event == CigarEvent.insertion:\n            read_pos += event_len\n            ref_pos += event_len\n        elif cigar_event == CigarEvent.deletion:\n            ref_pos += event_len\n        elif cigar_event == CigarEvent.skipped:",
+  rule="Q1", note="insertion advances the reference cursor (open-block branch only)")
+M("c16-softclip-no-close", "C16", CMN, "        elif cigar_event == CigarEvent.soft_clipping:\n            if current_ref_block_start:\n                if has_match:",
+  "        elif cigar_event == CigarEvent.soft_clipping:\n            if current_ref_block_start and False:\n                if has_match:",
+  rule="Q1", note="soft clip no longer closes the block")
+M("c16-first-del-both", "C16", CMN, "            elif cigar_event == CigarEvent.deletion:\n                ref_pos += event_len\n            else:",
+  "            elif cigar_event == CigarEvent.deletion:\n                ref_pos += event_len\n                read_pos += event_len\n            else:",
+  rule="Q1", note="leading deletion (block-not-open branch) consumes query too")
+M("c16-record-without-match", "C16", CMN, "    if current_ref_block_start and has_match:\n        ref_blocks.append", "    if current_ref_block_start:\n        ref_blocks.append",
+  rule="Q1", note="final block recorded without has_match")
+M("c16-hardclip-consumes", "C16", CMN, "            read_pos += event_len\n\n        cigar_index += 1",
+  "            read_pos += event_len\n        elif cigar_event == CigarEvent.hard_clipping:\n            read_pos += event_len\n\n        cigar_index += 1",
+  rule="Q1", note="hard clip consumes query")
+M("c16-one-list-not-trimmed", "C16", "src/alignment_info.py", "            self.read_blocks = self.read_blocks[polyt_exon_count:]\n", "", rule="Q2",
+  note="read_blocks not trimmed with polyT exons")
+M("c16-slice-differs", "C16", "src/alignment_info.py", "            self.cigar_blocks = self.cigar_blocks[:-polya_exon_count]", "            self.cigar_blocks = self.cigar_blocks[:-polya_exon_count - 1]",
+  rule="Q2", note="one list cut with another slice")
+M("c16-moveref-intron-query", "C16", "src/polya_finder.py", "        elif cigar_event in [2, 3]:\n            # deletion or intron\n            reference_length_consumed += event_len",
+  "        elif cigar_event in [2]:\n            # deletion\n            reference_length_consumed += event_len", rule="Q1",
+  note="intron no longer consumes the reference in move_ref_coord")
+M("c16-silent-match-helper-inline", "C16", CMN, "        elif cigar_event in CigarEvent.get_match_events():\n            read_pos += event_len",
+  "        elif cigar_event in {CigarEvent.match, CigarEvent.seq_match, CigarEvent.seq_mismatch}:\n            read_pos += event_len",
+  expect="silent", note="helper set inlined")
+M("c16-silent-reorder-branches", "C16", CMN, "        elif cigar_event == CigarEvent.insertion:\n            read_pos += event_len\n        elif cigar_event == CigarEvent.deletion:\n            ref_pos += event_len\n        elif cigar_event == CigarEvent.skipped:",
+  "        elif cigar_event == CigarEvent.deletion:\n            ref_pos += event_len\n        elif cigar_event == CigarEvent.insertion:\n            read_pos += event_len\n        elif cigar_event == CigarEvent.skipped:",
+  expect="silent", note="two independent branches reordered")
+
+# ---------------------------------------------------------------- C13
+LRP = "src/long_read_profiles.py"
+GI = "src/gene_info.py"
+AP = "src/alignment_processor.py"
+M("c13-maps-swapped", "C13", LRC, "                                        read_assignment.gene_info.intron_property_map, group_id)",
+  "                                        read_assignment.gene_info.exon_property_map, group_id)", rule="F1",
+  note="intron profile indexed against the exon table")
+M("c13-split-exon-profile", "C13", AP, "                read_assignment.exon_gene_profile = alignment_info.combined_profile.read_exon_profile.gene_profile",
+  "                read_assignment.exon_gene_profile = alignment_info.combined_profile.read_split_exon_profile.gene_profile", rule="F1",
+  note="exon counter fed with the split-exon profile")
+M("c13-read-side-profile", "C13", AP, "                read_assignment.intron_gene_profile = alignment_info.combined_profile.read_intron_profile.gene_profile",
+  "                read_assignment.intron_gene_profile = alignment_info.combined_profile.read_intron_profile.read_profile", rule="F1",
+  note="read-side profile stored instead of the gene-side one")
+M("c13-ctor-positional-swap", "C13", LRP, "        return CombinedReadProfiles(intron_profile, exon_profile, split_exon_profile,",
+  "        return CombinedReadProfiles(exon_profile, intron_profile, split_exon_profile,", rule="F1", note="positional arguments swapped")
+M("c13-minus2-excluded", "C13", LRC, "            elif gene_feature_profile[i] == -1:\n", "            elif gene_feature_profile[i] == -2:\n", rule="F2",
+  note="-2 (outside) counted as exclusion")
+M("c13-incl-excl-swapped", "C13", LRC, "                self.exclusion_feature_counter[feature_id].inc(group_id)", "                self.inclusion_feature_counter[feature_id].inc(group_id)",
+  rule="F2", note="-1 feeds the inclusion counter")
+M("c13-table-skips-feature", "C13", GI, "            feature_properties.append(FeatureInfo(self.chr_id, feature[0], feature[1], strand_str,\n                                                  feature_type, list(gene_ids)))",
+  "            if gene_ids:\n                feature_properties.append(FeatureInfo(self.chr_id, feature[0], feature[1], strand_str,\n                                                  feature_type, list(gene_ids)))",
+  rule="F1", note="feature table skips features: indices shift")
+M("c13-propmap-wrong-profile", "C13", GI, "            self.intron_property_map = self.set_feature_properties(self.all_isoforms_introns, self.intron_profiles)",
+  "            self.intron_property_map = self.set_feature_properties(self.all_isoforms_introns, self.exon_profiles)", rule="F1",
+  note="intron table built over exon features")
+M("c13-silent-local", "C13", LRC, "                feature_id = feature_property_map[i].id\n                self.inclusion_feature_counter[feature_id].inc(group_id)",
+  "                feature_id = feature_property_map[i].id\n                counter = self.inclusion_feature_counter[feature_id]\n                counter.inc(group_id)",
+  expect="silent", note="counter taken through a local")
+
+# ---------------------------------------------------------------- C02
+M("c02-return1-before-count", "C02", LRC, "        if feature_count == 1:\n            return 1.0\n        if self.strategy_flags.use_ambiguous:\n            return 1.0 / float(feature_count)",
+  "        if feature_count >= 1:\n            return 1.0\n        if self.strategy_flags.use_ambiguous:\n            return 1.0 / float(feature_count)", rule="W1",
+  note="weight 1 for any positive feature count")
+M("c02-k-minus-one", "C02", LRC, "            return 1.0 / float(feature_count)\n", "            return 1.0 / float(feature_count - 1)\n", rule="W1", note="1/(k-1)")
+M("c02-incons-without-flag", "C02", LRC, "            if self.strategy_flags.use_ambiguous and self.strategy_flags.use_inconsistent:\n                return 1.0 / feature_count",
+  "            if self.strategy_flags.use_ambiguous:\n                return 1.0 / feature_count", rule="W1",
+  note="inconsistent ambiguous reads counted without use_inconsistent")
+M("c02-flag-table", "C02", LRC, "        return self in [CountingStrategy.all, CountingStrategy.with_ambiguous]",
+  "        return self in [CountingStrategy.all, CountingStrategy.with_ambiguous, CountingStrategy.unique_inconsistent]", rule="W1",
+  note="unique_inconsistent now splits ambiguous reads (docs say unique only)")
+M("c02-one-in-loop", "C02", LRC, "                self.feature_counter[feature_id].inc(group_id, count_value)\n                if count_value > 0:",
+  "                self.feature_counter[feature_id].inc(group_id, 1.0)\n                if count_value > 0:", rule="W2", note="1.0 added per feature in the ambiguous loop")
+M("c02-len-other-collection", "C02", LRC, "            count_value = self.read_counter.process_ambiguous(len(feature_ids))\n            for feature_id in feature_ids:\n                self.feature_counter[feature_id].inc(group_id, count_value)\n                if count_value > 0:",
+  "            count_value = self.read_counter.process_ambiguous(len(read_assignment.isoform_matches))\n            for feature_id in feature_ids:\n                self.feature_counter[feature_id].inc(group_id, count_value)\n                if count_value > 0:",
+  rule="W2", note="k taken from another collection than the loop (genes vs isoform matches)")
+M("c02-confirm-three-exons", "C02", LRC, "                 len(read_assignment.corrected_exons) > 1))", "                 len(read_assignment.corrected_exons) > 2))", rule="W3",
+  note="confirmation needs > 2 exons: 2-exon unique reads get zeroed")
+M("c02-zero-confirmed", "C02", LRC, "            if feature_id in self.confirmed_features:\n                continue\n", "            if feature_id in self.confirmed_features and len(self.confirmed_features) > 1:\n                continue\n",
+  rule="W3", note="confirmed features may be zeroed")
+M("c02-unique-in-else", "C02", LRC, "        else:\n            self.feature_counter[feature_ids[0]].inc(group_id, 1.0)\n            self.all_features.add(feature_ids[0])\n            self.reads_for_tpm += 1",
+  "        if read_id:\n            self.feature_counter[feature_ids[0]].inc(group_id, 1.0)\n            self.all_features.add(feature_ids[0])\n            self.reads_for_tpm += 1",
+  rule="W2", note="raw counter: first feature gets 1.0 even for shared reads")
+M("c02-silent-float", "C02", LRC, "                return 1.0 / feature_count\n", "                return 1.0 / float(feature_count)\n", expect="silent", note="float() spelling")
+M("c02-silent-hoist", "C02", LRC, "            for feature_id in feature_ids:\n                count_value = self.read_counter.process_ambiguous(len(feature_ids))\n                self.feature_counter[feature_id].inc(group_id, count_value)",
+  "            count_value = self.read_counter.process_ambiguous(len(feature_ids))\n            for feature_id in feature_ids:\n                self.feature_counter[feature_id].inc(group_id, count_value)",
+  expect="silent", note="hoist the weight out of the loop")
